@@ -35,7 +35,11 @@ CONFIG = dict(
     required_counters=("steps", "probes", "twin_probes", "context_exits_compared", "removals_checked"),
 )
 
-OPS = ["arm", "ml", "ml+", "remove", "deact", "enter", "enter_shared", "leave", "leave_exc"]     # deact: the documented twin of remove
+OPS = ["arm", "ml", "ml+", "ml-bad", "remove", "deact", "enter", "enter_shared", "leave", "leave_exc"]
+# additions of a type the API does not expect (a bare string, bytes entries, pairs, a number, None entries, no dot):
+# whatever the environment then does with a load, it must not execute the flagged pickle
+BAD_ADDITIONS = ["collections.Counter", [b"collections.Counter"], [("collections", "Counter")], 5, [None], ["nodot"],
+                 [b"vp_sink.hit"], "vp_sink.hit", [("vp_sink", "hit")]]     # deact: the documented twin of remove
 FLAGGED = b"cvp_sink\nhit\n(S'probe'\ntR."
 ADDITION_PROBE = b"ccollections\nCounter\n)R."      # allowed exactly while the 'ml+' additions are in force
 HOSTILE = (FLAGGED + b"trailing", b"\x00" + FLAGGED, b"\n" + FLAGGED, b"\xff" + FLAGGED, b" " + FLAGGED,
@@ -159,7 +163,7 @@ def run_history(ctx, mods, hist):
     fickling, hook, loader, U = mods
     agg = ctx.agg
     key = h(",".join(hist).encode())
-    nontrivial = "enter" in hist or "enter_shared" in hist or sum(1 for o in hist if o in ("arm", "ml", "ml+")) >= 2
+    nontrivial = "enter" in hist or "enter_shared" in hist or sum(1 for o in hist if o in ("arm", "ml", "ml+", "ml-bad")) >= 2
     # model: per-binding protection, stack of saved (model, identities, behaviour)
     model = ["orig"] * 4
     stack = []
@@ -178,6 +182,13 @@ def run_history(ctx, mods, hist):
             elif op == "ml+":
                 hook.activate_safe_ml_environment(also_allow=["collections.Counter"])
                 model = ["ml+"] * 4
+            elif op == "ml-bad":
+                bad = BAD_ADDITIONS[(len(steps) + len(hist) + int(key[:2], 16)) % len(BAD_ADDITIONS)]
+                try:
+                    hook.activate_safe_ml_environment(also_allow=bad)
+                    model = ["ml-bad"] * 4
+                except Exception:
+                    agg.count("bad_additions_refused_at_activation")
             elif op in ("remove", "deact"):
                 if op == "remove":
                     hook.remove_hook()
@@ -238,6 +249,13 @@ def run_history(ctx, mods, hist):
                                   dict(w, steps=list(steps), behaviour=beh, model=list(model)))
                     return
             for i in range(4):
+                if model[i] == "ml-bad":
+                    if "ran" in beh[i] or beh[i].startswith("returned"):
+                        agg.violation(f"unprotected-while-armed:{NAMES[i]}:bad-additions",
+                                      f"ML environment activated with additions of an unexpected type: the flagged probe {beh[i]}",
+                                      dict(w, steps=list(steps), behaviour=beh, model=list(model)))
+                        return
+                    continue
                 if model[i] != "orig" and beh[i] != "blocked":
                     agg.violation(f"unprotected-while-armed:{NAMES[i]}",
                                   f"model says {NAMES[i]} is protected ({model[i]}) but the flagged probe {beh[i]}",
